@@ -103,3 +103,12 @@ From XcpProofs Require Import PinnedSource.
 Theorem C15_src_pin_linux_reflink : pin_unchanged name_linux_reflink.
 Proof. exact pin_linux_reflink. Qed.
 Print Assumptions C15_src_pin_linux_reflink.
+
+(* ---- nothing is carried from one file of a run to the next: the inventory of process-wide state (statics,
+   thread-locals, umask calls) of the current source, regenerated by the translator on every run ---- *)
+From XcpProofs Require Import XState.
+From Coq Require Import String.
+Theorem C15_src_no_state_carried_between_files :
+  x_static_items = ["libxcp/src/backup.rs::BAK_REGEX"%string] /\ x_thread_locals = [] /\ x_umask_calls = 0%N.
+Proof. exact x_process_wide_state_ok. Qed.
+Print Assumptions C15_src_no_state_carried_between_files.
